@@ -235,7 +235,7 @@ impl Property for C17 {
         ]
     }
     fn cases(&self, tier: Tier) -> usize {
-        tier.pick(15000, 200_000)
+        tier.pick(40000, 400_000)
     }
     fn strategy(&self, tier: Tier) -> BoxedStrategy<Case> {
         strategy(tier)
